@@ -157,3 +157,32 @@ Theorem FT_struct_members :
                      end) struct_descr = true.
 Proof. vm_compute. reflexivity. Qed.
 Print Assumptions FT_struct_members.
+
+(* ---------- what the read() methods do per key (Gen_readers.v, translator/readers.py) against the descriptors ---------- *)
+Require Import Gen_readers.
+Definition reader_descr : list (string * ty) := struct_descr ++ [("BlockTables", BlockTables); ("Block", Schema.Block)].
+Definition accs_of (t : ty) : list bool := match t with TMap _ accs _ => accs | _ => [] end.
+(* one member: mandatory on reading <-> Mand / MandNE; the extra non-empty check <-> MandNE; a repeated key accumulates <-> the descriptor
+   lists the member among those read() never resets (Schema.upd_slot) *)
+Fixpoint reader_fields_ok (i : nat) (accs : list bool) (rows : list (Z * (bool * bool * bool))) (fs : fields) : bool :=
+  match rows, fs with
+  | [], FNil => true
+  | (k, (mand, ne, acc)) :: rows', FCons k' p _ r =>
+      Z.eqb k k' &&
+      Bool.eqb mand (match p with Mand | MandNE => true | _ => false end) &&
+      Bool.eqb ne (match p with MandNE => true | _ => false end) &&
+      Bool.eqb acc (nth i accs false) &&
+      reader_fields_ok (S i) accs rows' r
+  | _, _ => false
+  end.
+(* every reader handles exactly the keys of its descriptor, in the descriptor's order, with the descriptor's presence classes; every
+   structure's read() resets the object first - CdnsBlockRead::read_blocktables is the one reader that does not (it is called again for a
+   repeated block-tables key, which is why that member accumulates as a whole) *)
+Theorem FT_reader_presence :
+  forallb (fun sd => match lookup (fst sd) gen_readers, snd sd with
+                     | Some (resets, rows), TMap _ accs fs =>
+                         reader_fields_ok 0 accs rows fs && Bool.eqb resets (negb (String.eqb (fst sd) "BlockTables"))
+                     | _, _ => false
+                     end) reader_descr = true.
+Proof. vm_compute. reflexivity. Qed.
+Print Assumptions FT_reader_presence.
